@@ -80,6 +80,8 @@ def expr(e):
         return f"(negb {expr(e.operand)})"
     if _is_self_attr(e, "is_bytes"):
         return "is_bytes"
+    if isinstance(e, ast.Constant) and isinstance(e.value, bool):
+        return "true" if e.value else "false"
     if isinstance(e, ast.Compare) and len(e.ops) == 1:
         op, left, right = e.ops[0], e.left, e.comparators[0]
         if _is_self_attr(left, "conversion_type"):
